@@ -63,16 +63,17 @@ class Sut:
         return out
 
     def build(self, recs):
-        """construct the storage state `recs` through the public API"""
+        """construct the storage state `recs` with the operations of the specification itself (an auto-creating lookup and
+        one patch per record); returns the recorded events, which are judged by TLC like any other step - so a
+        storage that cannot be brought into the state is reported with the clause it breaks, not as a harness failure"""
+        ev = []
         for n, rec in enumerate(recs):
-            r = self.st.match_incoming(("setup", 10_000 + n), auto_create=True)
-            r.address_in = dec(rec["f"]["address_in"])
-            r.address_out = dec(rec["f"]["address_out"])
-            r.callsign = dec(rec["f"]["callsign"])
-            for k, v in rec["attrs"].items():
-                if v["t"] != "n":
-                    r.attr(k, dec(v))
+            ev.append(self.apply(act("match_incoming", addr=("setup%d" % n, 10_000 + n), auto=True)))
+            patch = [(k, dec(rec["f"][k])) for k in ("address_in", "address_out", "callsign")]
+            patch += [(k, dec(v)) for k, v in rec["attrs"].items() if v["t"] != "n"]
+            ev.append(self.apply(act("patch", id=n + 1, patch=patch)))
         self.sync()
+        return ev
 
     def apply(self, a):
         import uuid
@@ -215,7 +216,7 @@ def run(ctx):
     depth, recs = (3, 2) if ctx.quick else (4, 3)
     with open(os.path.join(ctx.rundir, "MC_Storage_run.cfg"), "w") as f:
         f.write(CFG.format(depth=depth, recs=recs))
-    res = core.run_tlc(ctx, "MC_Storage", "MC_Storage_run.cfg", timeout=1500)
+    res = core.run_tlc(ctx, "MC_Storage", "MC_Storage_run.cfg", timeout=3000, workers=1)
     if res.violated:
         # design-level counterexample: the design model mirrors the code, so reproduce on the code below
         ctx.note("design_counterexample", res.violated)
@@ -226,6 +227,7 @@ def run(ctx):
     ctx.exhaustive = True
     # ---- spec -> code: replay every edge
     traces = []
+    unbuilt = []
     seen = set()
     for e in edges:
         k = core.digest([e["from"], e["act"]])
@@ -233,16 +235,24 @@ def run(ctx):
             continue
         seen.add(k)
         sut = Sut()
-        sut.build(e["from"])
-        if sut.project() != e["from"]:
-            raise core.MachineryError("could not construct source state")
-        ev = sut.apply(e["act"])
-        traces.append({"init": e["from"], "ev": [ev]})
+        pre = sut.build(e["from"])
+        built = sut.project() == e["from"]
+        if not built:
+            unbuilt.append(len(traces))      # TLC must reject the set-up steps of this trace; checked below
+            traces.append({"init": [], "ev": pre})
+        else:
+            traces.append({"init": [], "ev": pre + [sut.apply(e["act"])]})
         ctx.count(k if e["act"]["op"] != "match_uuid" or e["from"] else None)
     ctx.sample({"replayed_edge": traces[len(traces) // 2]})
+    rejected = set()
+    base = 0
     for part in core.chunks(traces, 20000):
         rej = ctx.validate_traces("Trace_Storage", "Trace_Storage.cfg", part)
         judge(ctx, part, rej, "edge replay")
+        rejected |= {base + tid for tid, _, _ in rej}
+        base += len(part)
+    if any(i not in rejected for i in unbuilt):
+        raise core.MachineryError("a source state could not be constructed although TLC accepts every set-up step")
     # ---- code -> spec: random histories
     n, ln = (400, 60) if ctx.quick else (4000, 300)
     hist = []
